@@ -40,6 +40,10 @@ impl Model {
         if self.poisoned {
             return;
         }
+        if let Ev::Panic { .. } = ev {
+            // whatever was in flight is abandoned
+            self.current_fold = None;
+        }
         if !matches!(ev, Ev::FoldStep { .. } | Ev::Engine(_)) {
             self.finalize_fold(at);
         }
@@ -337,6 +341,7 @@ impl Model {
             }
             s.delivered_this_round = false;
         }
+        self.nec_before_round = self.necessary.clone();
         self.refresh_necessity();
         self.cone_start = self.necessary.clone();
         for n in self.nodes.iter_mut() {
@@ -520,24 +525,17 @@ impl Model {
                     Some(MV::P(a, b)) => Some(MV::I(if *proj == 0 { a } else { b })),
                     _ => None,
                 };
-                if s.last_run == Some(round) && s.last_changed == Some(round) && s.prev_value.is_some() {
-                    // the input was recomputed and changed in this round: if this node was already linked, the
-                    // engine compared the old and new projection of the input exactly
-                    let exact = match (pr(s.prev_value), pr(s.value)) {
+                // a node that stayed linked since its last recompute has heard of every change of
+                // its input: the engine then compares old and new projection exactly
+                let continuously = self.cone_start.contains(&h) && self.nec_before_round.contains(&h) && !self.transient.contains(&h);
+                if continuously && s.last_run == Some(round) && s.last_changed == Some(round) && s.prev_value.is_some() {
+                    match (pr(s.prev_value), pr(s.value)) {
                         (Some(a), Some(b)) => !self.nodes[h].cutoff.cuts(a, b),
                         _ => true,
-                    };
-                    if self.cone_start.contains(&h) {
-                        exact
-                    } else {
-                        // linked at some point during this round: either verdict is possible
-                        maybe = true;
-                        false
                     }
                 } else {
-                    // reconnected without fresh information: the engine may report a change
-                    // although the projection is equal (relaxation R2); a real difference must
-                    // be reported
+                    // reconnected: a real difference must be reported; with an equal projection
+                    // the engine may still report a change (relaxation R2)
                     let c = !self.nodes[h].cutoff.cuts(o, new);
                     if !c {
                         maybe = true;
